@@ -84,6 +84,7 @@ def validate_traces(trace_file: str, module: str, invariants: list[str], workdir
     Raises TLCFailure if a TLC process crashed or a trace was neither completed nor rejected.
     """
     t0 = time.time()
+    timeout = float(os.environ.get("VERIF_TLC_TIMEOUT", timeout))
     os.makedirs(workdir, exist_ok=True)
     lines = [ln for ln in open(trace_file) if ln.strip()]
     if not lines:
